@@ -15,10 +15,14 @@ for sid in ids:
         print(sid, "PATCH DOES NOT APPLY", a.stderr[:200]); bad += 1; continue
     alarms = {}
     try:
-        for p in ["C%02d" % i for i in range(1, 21) if i != 17]:
-            c = subprocess.run(["/venv/bin/python", "/verif/sa/check.py", p, "--tier", "quick", "--no-write"], cwd="/verif", capture_output=True, text=True)
-            if c.returncode != 0:
-                alarms[p] = {"exit": c.returncode, "lines": [l[:240] for l in c.stdout.splitlines() if l.startswith(("  distance3d", "ANALYSIS-ERROR"))][:5]}
+        from concurrent.futures import ThreadPoolExecutor
+
+        def one(p):
+            return p, subprocess.run(["/venv/bin/python", "/verif/sa/check.py", p, "--tier", "quick", "--no-write"], cwd="/verif", capture_output=True, text=True)
+        with ThreadPoolExecutor(8) as ex:
+            for p, c in ex.map(one, ["C%02d" % i for i in range(1, 21) if i != 17]):
+                if c.returncode != 0:
+                    alarms[p] = {"exit": c.returncode, "lines": [l[:240] for l in c.stdout.splitlines() if l.startswith(("  distance3d", "ANALYSIS-ERROR"))][:5]}
     finally:
         subprocess.run(["git", "-C", "/repo", "checkout", "--", "."])
     meta = json.load(open(d + "/meta.json"))
